@@ -146,7 +146,7 @@ var clauseKeywords = map[string]bool{
 	"ghost": true, "assigns": true, "modular": true, "inline": true, "trusted": true,
 	"mode": true, "alloc_bound": true, "pure": true, "protected_by": true, "immutable": true,
 	"inv": true, "opaque": true, "havoc": true, "noinline": true, "bounded": true, "returns_fresh": true,
-	"sweep": true, "cover": true, "replay_hint": true, "never_writes": true, "frame_only": true, "reveal": true, "iface_calls_only": true, "direct_calls_only": true,
+	"sweep": true, "cover": true, "replay_hint": true, "never_writes": true, "frame_only": true, "reveal": true, "nostrlen": true, "opaque_strings": true, "merge_branches": true, "iface_calls_only": true, "direct_calls_only": true,
 }
 
 // ParseContractFile reads one file and adds its declarations to cs. pkgKey is
